@@ -135,3 +135,11 @@ mut('c08-interrupted-bom-default', ['C08'], 'src/reader/decoder.rs', "          
 mut('c08-read-byte-skips-on-boundary', ['C08'], 'src/reader/decoder.rs', "                Ok([]) => Ok(None),\n                Err(ref err) if err.kind() == ErrorKind::Interrupted => continue,", "                Ok([]) => Ok(None),\n                Err(ref err) if err.kind() == ErrorKind::Interrupted => Ok(Some(0)),")
 
 mut('c08-drop-single-byte-head', ['C08'], 'src/reader/decoder.rs', "            head.extend_from_slice(&available[..len]);", "            if available.len() >= 2 || !head.is_empty() { head.extend_from_slice(&available[..len]); }")
+
+# ---- C09
+mut('c09-swallow-read-error-in-section', ['C09'], 'src/decode.rs', "            Ok(None) => return Ok(SectionFlow::Break(())),\n            Err(err) => return Err(err),", "            Ok(None) => return Ok(SectionFlow::Break(())),\n            Err(_) => return Ok(SectionFlow::Break(())),")
+mut('c09-drop-final-flush', ['C09'], 'src/encode.rs', "        self.encode_hit_objects(&mut writer)?;\n\n        writer.flush()", "        self.encode_hit_objects(&mut writer)?;\n\n        Ok(())")
+mut('c09-swallow-write-error', ['C09'], 'src/encode.rs', "            get_sample_bank(writer, &hit_object.samples, false, self.mode)?;\n\n            writer.write_all(b\"\\n\")?;", "            get_sample_bank(writer, &hit_object.samples, false, self.mode)?;\n\n            let _ = writer.write_all(b\"\\n\");")
+mut('c09-rewrap-read-error', ['C09'], 'src/reader/decoder.rs', "                Ok([]) => Ok(None),\n                Err(ref err) if err.kind() == ErrorKind::Interrupted => continue,\n                Err(err) => Err(err),", "                Ok([]) => Ok(None),\n                Err(ref err) if err.kind() == ErrorKind::Interrupted => continue,\n                Err(err) => Err(std::io::Error::new(ErrorKind::UnexpectedEof, err.to_string())),")
+mut('c09-bom-error-default', ['C09'], 'src/reader/decoder.rs', "                Err(ref err) if err.kind() == ErrorKind::Interrupted => continue,\n                Err(err) => return Err(err),\n            };\n\n            if available.is_empty() {", "                Err(ref err) if err.kind() == ErrorKind::Interrupted => continue,\n                Err(_) => break,\n            };\n\n            if available.is_empty() {")
+mut('c09-version-error-as-eof', ['C09'], 'src/decode.rs', "            Ok(None) => (None, false),\n            Err(err) => return Err(err),", "            Ok(None) => (None, false),\n            Err(err) if err.kind() == io::ErrorKind::WouldBlock => (None, false),\n            Err(err) => return Err(err),")
